@@ -59,7 +59,13 @@ def _one_run(hid, inst, dep, leaving, sseed, r, dcop, cg, algo_def, dist, names,
             w.run(max_steps=second["steps"])
             r2 = random.Random(second["seed"])
             n2 = r2.randint(1, min(dep["k"], len(alive) - 2))
-            events.append(tuple(sorted(r2.sample(alive, n2))))
+            # two times out of three an agent that has just taken over a computation is among those that leave next
+            took = [a for a in alive if set(hosted[a]) - {c for c in comps if host_before[c] == a}]
+            L2 = r2.sample(alive, n2)
+            took0 = [a for a in took if not dist.computations_hosted(a)]        # ... that hosted nothing in the initial distribution
+            if took and second["seed"] % 3 and not set(took) & set(L2):
+                L2[0] = r2.choice(took0 or took)
+            events.append(tuple(sorted(L2)))
     return out
 
 
@@ -82,7 +88,7 @@ def run(tier):
                 if quick:
                     sets = r.sample(sets, min(3, len(sets)))
                 for li, L in enumerate(sets):
-                    second = {"steps": r.choice([100, 400]), "seed": r.randrange(10 ** 6)} if li % 2 == 0 else None
+                    second = {"steps": r.choice([100, 400]), "seed": r.randrange(10 ** 6)} if li % 3 != 2 else None
                     for rec, m in one_run(len(recs), inst, dep, L, r.randrange(10 ** 6), second):
                         meta[rec["id"]] = m
                         recs.append(rec)
@@ -140,7 +146,7 @@ def run(tier):
     v.cov["exhaustive"] = False
     v.cov["rule"] = ("DCOPs over %d shapes (4-5 DSA computations), TLC-drawn deployments on 4 (quick) / 4-6 agents with ample capacity, k in {1,2}; "
                      "every set of at most k departing agents (quick: 3 drawn per deployment); the removal happens before the algorithm starts, or after "
-                     "40 / 200 agent steps of it; every other run goes on with a second event (up to k of the survivors leave, 100 / 400 agent steps after the "
+                     "40 / 200 agent steps of it; two runs out of three go on with a second event (two times out of three an agent that has just taken over a computation is among those that leave) (up to k of the survivors leave, 100 / 400 agent steps after the "
                      "first repair); one seeded interleaving per run; non-trivial = the departing agents hosted at least one computation" % len(SHAPES))
     v.cov["trusted_base"] = ["TLC (Repair.tla)", "vlib/orchrt.py + vlib/agentrt.py (scenario event injected as the orchestrator does it)"]
     v.cov["second_events"] = sum(1 for rec in recs if meta[rec["id"]]["event"] == 2)
